@@ -67,8 +67,19 @@ type Case struct {
 	// the case shows; never generated, only used by the regression replays replays/C20/race-*.json.
 	Unguard bool `json:"unguard,omitempty"`
 
+	// URLParams: number (0..3) of static URLParamOpts the ONE shared AuthURLHandler / CodeExchangeHandler are built with
+	URLParams int `json:"url_params,omitempty"`
+
 	// order
-	Steps []Step `json:"steps,omitempty"`
+	Steps   []Step           `json:"steps,omitempty"`
+	Clients []SuppliedClient `json:"clients,omitempty"` // the caller-supplied http clients of the case (default: two plain ones)
+}
+
+// SuppliedClient describes one caller-supplied *http.Client (its Transport is always the in-process one).
+type SuppliedClient struct {
+	TimeoutS      int  `json:"timeout_s"`                // 0 = no timeout, the zero value many applications pass
+	Jar           bool `json:"jar,omitempty"`            // own cookie jar
+	CheckRedirect bool `json:"check_redirect,omitempty"` // own redirect policy (allows up to 5 hops)
 }
 
 // ---- fingerprints of the four defects the check found on the unchanged tree ----------------------
@@ -162,6 +173,7 @@ func genConc(t *rapid.T) Case {
 	c.Router = rapid.SampledFrom([]string{"provider", "legacy"}).Draw(t, "router")
 	c.SignAlg = rapid.SampledFrom([]string{"ES256", "ES256", "ES256", "RS256", "EdDSA"}).Draw(t, "alg")
 	c.JWTAT = rapid.Bool().Draw(t, "jwt_at")
+	c.URLParams = rapid.IntRange(0, 3).Draw(t, "url_params")
 	c.Sync = rapid.Bool().Draw(t, "lockstep")
 	c.Cold = rapid.IntRange(0, 2).Draw(t, "cold") == 0
 	if c.Cold {
@@ -313,7 +325,11 @@ func newEnv(c Case) (*env, error) {
 		return nil, fmt.Errorf("rp: %w", err)
 	}
 	// the state generator of the library's own example (a counter shared by the goroutines would synchronise them)
-	e.loginH = rp.AuthURLHandler(func() string { return "hst-" + uuid.NewString() }, e.rp, rp.WithURLParam("login_hint", "someone"))
+	var urlParams []rp.URLParamOpt
+	for i := 0; i < c.URLParams && i < 3; i++ {
+		urlParams = append(urlParams, rp.WithURLParam([]string{"login_hint", "ui_locales", "acr_values"}[i], []string{"someone", "en", "x"}[i]))
+	}
+	e.loginH = rp.AuthURLHandler(func() string { return "hst-" + uuid.NewString() }, e.rp, urlParams...)
 	e.cbH = rp.CodeExchangeHandler(rp.UserinfoCallback(func(w http.ResponseWriter, _ *http.Request, tokens *oidc.Tokens[*oidc.IDTokenClaims], state string, _ rp.RelyingParty, info *oidc.UserInfo) {
 		// what this request's callback was given goes back to this request's caller through its own response
 		w.Header().Set("X-State", state)
@@ -322,7 +338,7 @@ func newEnv(c Case) (*env, error) {
 			w.Header().Set("X-Sub", tokens.IDTokenClaims.Subject)
 		}
 		w.WriteHeader(http.StatusNoContent)
-	}), e.rp)
+	}), e.rp, urlParams...)
 	if e.rs, err = rs.NewResourceServerClientCredentials(e.ctx, issuer, "api", "api-secret", rs.WithClient(e.hc)); err != nil {
 		return nil, fmt.Errorf("rs: %w", err)
 	}
@@ -1027,7 +1043,7 @@ type opResult struct {
 
 func runConc(c Case) *vkit.Result {
 	res := &vkit.Result{}
-	res.Label("kind:conc", "router:"+c.Router, "alg:"+c.SignAlg, fmt.Sprintf("jwt_at:%v", c.JWTAT), fmt.Sprintf("goroutines:%d", len(c.Progs)), fmt.Sprintf("lockstep:%v", c.Sync), fmt.Sprintf("cold:%v", c.Cold))
+	res.Label("kind:conc", "router:"+c.Router, "alg:"+c.SignAlg, fmt.Sprintf("jwt_at:%v", c.JWTAT), fmt.Sprintf("goroutines:%d", len(c.Progs)), fmt.Sprintf("lockstep:%v", c.Sync), fmt.Sprintf("cold:%v", c.Cold), fmt.Sprintf("handler-url-params:%d", c.URLParams))
 	e, err := newEnv(c)
 	if err != nil {
 		res.Fail("C20:setup", "environment could not be built: %v", err)
